@@ -27,6 +27,7 @@ CONSTANTS
   EmitEdges,     \* print one JSON test per transition
   MaxDepth,      \* 0 = unbounded (closed BFS); > 0 bounds behaviours (simulation) and prints them at that depth
   Ramp,          \* simulation only: fill/drain phases that push fan-outs through every threshold
+  StartFull,     \* simulation only: behaviours start from the tree holding every insertable key (drain first)
   \* deviations; the defaults describe the current (repaired) tree
   SizeOnSplit,   \* TRUE: compressed-path split counts the new key (D3 fixed)
   RangeDepth,    \* "perPath" (D4 fixed) | "perScan"
@@ -173,7 +174,7 @@ PathSplit(nd, key, k, depth, pd) ==
 RECURSIVE InsAt(_, _, _, _)
 InsAt(nd, key, k, depth) ==
   IF nd.kind = "leaf"
-  THEN IF nd.tk = key THEN Res(nd, FALSE)            \* overwrite: only the value changes
+  THEN IF nd.k = k THEN Res(nd, FALSE)               \* same key (identity, not transformed bytes): only the value changes
        ELSE LeafSplit(nd, key, k, depth)
   ELSE LET pd == IF nd.plen # 0 THEN PrefixMismatch(nd, key, depth) ELSE 0
        IN  IF nd.plen # 0 /\ pd < nd.plen
@@ -197,21 +198,23 @@ PathOK(nd, key, depth) ==
   nd.plen = 0 \/ CheckPrefix(nd, key, depth) = Min2(InlineMax, nd.plen)
 
 (* rank found, 0 = absent, -1 = the real code would index past the key (panic) *)
-RECURSIVE SearchAt(_, _, _)
-SearchAt(nd, key, depth) ==
-  IF nd.kind = "leaf" THEN (IF nd.tk = key THEN nd.k ELSE 0)
+(* The final comparison at a leaf is on the key's IDENTITY (rank): for the generated kinds that is the transformed *)
+(* bytes themselves, for collation trees the original string - two strings may share a collation key.            *)
+RECURSIVE SearchAt(_, _, _, _)
+SearchAt(nd, key, k, depth) ==
+  IF nd.kind = "leaf" THEN (IF nd.k = k THEN nd.k ELSE 0)
   ELSE IF ~PathOK(nd, key, depth) THEN 0
   ELSE LET d2 == depth + nd.plen
        IN  IF d2 >= Len(key) THEN (IF SearchGuard THEN 0 ELSE -1)
            ELSE LET i == FindIdx(nd, key[d2 + 1])
-                IN  IF i = 0 THEN 0 ELSE SearchAt(nd.ch[i], key, d2 + 1)
+                IN  IF i = 0 THEN 0 ELSE SearchAt(nd.ch[i], key, k, d2 + 1)
 
-SearchTop(tr, k) == IF tr.kind = "empty" THEN 0 ELSE SearchAt(tr, T(k), 0)
+SearchTop(tr, k) == IF tr.kind = "empty" THEN 0 ELSE SearchAt(tr, T(k), k, 0)
 
 DRes(t, res) == [t |-> t, res |-> res]
 
-RECURSIVE DelAt(_, _, _)
-DelAt(nd, key, depth) ==
+RECURSIVE DelAt(_, _, _, _)
+DelAt(nd, key, k, depth) ==
   IF ~PathOK(nd, key, depth) THEN DRes(nd, FALSE)
   ELSE LET d2 == depth + nd.plen
        IN  IF d2 >= Len(key) THEN DRes(nd, FALSE)
@@ -219,14 +222,14 @@ DelAt(nd, key, depth) ==
                 IN  IF i = 0 THEN DRes(nd, FALSE)
                     ELSE LET c == nd.ch[i]
                          IN  IF c.kind = "leaf"
-                             THEN IF c.tk = key THEN DRes(RemoveChild(nd, i), TRUE) ELSE DRes(nd, FALSE)
-                             ELSE LET r == DelAt(c, key, d2 + 1)
+                             THEN IF c.k = k THEN DRes(RemoveChild(nd, i), TRUE) ELSE DRes(nd, FALSE)
+                             ELSE LET r == DelAt(c, key, k, d2 + 1)
                                   IN  IF r.res THEN DRes(ReplaceChild(nd, i, r.t), TRUE) ELSE DRes(nd, FALSE)
 
 DelTop(tr, k) ==
   IF tr.kind = "empty" THEN DRes(tr, FALSE)
-  ELSE IF tr.kind = "leaf" THEN (IF tr.tk = T(k) THEN DRes(EmptyTree, TRUE) ELSE DRes(tr, FALSE))
-  ELSE DelAt(tr, T(k), 0)
+  ELSE IF tr.kind = "leaf" THEN (IF tr.k = k THEN DRes(EmptyTree, TRUE) ELSE DRes(tr, FALSE))
+  ELSE DelAt(tr, T(k), k, 0)
 
 -----------------------------------------------------------------------------
 (* Iteration: explicit-stack DFS.  A stack is a sequence whose LAST element is *)
@@ -368,13 +371,25 @@ PrefixL1(tr, p) ==
 -----------------------------------------------------------------------------
 (* The state machine *)
 
+(* the tree, map and history after inserting the insertable keys k..N in rank order *)
+RECURSIVE FillFrom(_, _)
+FillFrom(st, k) ==
+  IF k > N THEN st
+  ELSE IF Keys[k].probe THEN FillFrom(st, k + 1)
+  ELSE LET r == InsTop(st.tree, k)
+       IN  FillFrom([tree |-> r.t, size |-> st.size + (IF r.added THEN 1 ELSE 0), m |-> Ins(st.m, k, 1),
+                     h |-> Append(st.h, <<"I", k>>)], k + 1)
+
+Empty0 == [tree |-> EmptyTree, size |-> 0, m |-> EmptyMap(N), h |-> <<>>]
+Start == IF StartFull THEN FillFrom(Empty0, 1) ELSE Empty0
+
 Init ==
-  /\ tree = EmptyTree
-  /\ size = 0
-  /\ m = EmptyMap(N)
-  /\ h = <<>>
+  /\ tree = Start.tree
+  /\ size = Start.size
+  /\ m = Start.m
+  /\ h = Start.h
   /\ lastOK = TRUE
-  /\ phase = "fill"
+  /\ phase = IF StartFull THEN "drain" ELSE "fill"
 
 Emit(op) ==
   IF EmitEdges THEN PrintT(<<"EDGE", ToJson([pre |-> h, op |-> op])>>) ELSE TRUE
@@ -387,21 +402,34 @@ NextPhase(sz) ==
   ELSE IF phase = "drain" /\ sz = 0 THEN "fill"
   ELSE phase
 
-(* ramp (simulation only): mostly insert absent keys while filling, mostly delete *)
-(* present ones while draining.  Candidates per step: one uniformly random key    *)
-(* plus the extreme ones (largest / smallest), so that a step costs a handful of  *)
-(* operation evaluations instead of 2 * N, and "fill a node to its capacity,      *)
-(* remove its largest / smallest child, add one again" happens often.  Churn      *)
-(* against the ramp is allowed exactly where it matters: at the node capacities   *)
-(* 4 / 16 / 48 while filling, right after the shrink points 3 / 12 / 37 while     *)
-(* draining, and at every 7th / 5th size.                                         *)
+(* ramp (simulation only): insert absent keys while filling, delete present ones   *)
+(* while draining; ONE random candidate per step, so a step costs a few operation  *)
+(* evaluations instead of 2 * N.  The smallest and largest key of the universe     *)
+(* (typically the 0x00 / 0xFF branches) are inserted FIRST and deleted LAST, so    *)
+(* they are registered whenever a node grows or shrinks.  Churn against the ramp   *)
+(* happens where it matters - at the node capacities 4 / 16 / 48 while filling,    *)
+(* right after the shrink points 3 / 12 / 37 while draining, and at every 7th /    *)
+(* 5th size - and prefers the extreme PRESENT / ABSENT keys ("fill a node, remove  *)
+(* its largest child, add one again").                                             *)
 ChurnUp   == size \in {4, 16, 48} \/ size % 7 = 0
 ChurnDown == size \in {3, 12, 37} \/ size % 5 = 0
-EligIns == {k \in Insertable : ~Has(m, k) /\ (phase = "fill" \/ ChurnDown)}
-EligDel == {k \in 1..N : Has(m, k) /\ (phase = "drain" \/ ChurnUp)}
 MaxOf(S) == CHOOSE x \in S : \A y \in S : y <= x
 MinOf(S) == CHOOSE x \in S : \A y \in S : x <= y
-Cands(S) == IF S = {} THEN {} ELSE {RandomElement(S), MaxOf(S), MinOf(S)}
+Ends == {MinOf(Insertable), MaxOf(Insertable)}
+AbsentKeys  == {k \in Insertable : ~Has(m, k)}
+PresentKeys == {k \in 1..N : Has(m, k)}
+Pick(S) == IF S = {} THEN {} ELSE {RandomElement(S)}
+(* ONE candidate: a random element, the largest or the smallest, each with probability 1/3 *)
+Extremes(S) == IF S = {} THEN {} ELSE {RandomElement({RandomElement(S), MaxOf(S), MinOf(S)})}
+
+InsCands ==
+  CASE phase = "fill" -> IF AbsentKeys \cap Ends # {} THEN AbsentKeys \cap Ends ELSE Pick(AbsentKeys)
+    [] ChurnDown -> Extremes(AbsentKeys)
+    [] OTHER -> {}
+DelCands ==
+  CASE phase = "drain" -> IF PresentKeys \ Ends # {} THEN Pick(PresentKeys \ Ends) ELSE PresentKeys
+    [] ChurnUp -> Extremes(PresentKeys)
+    [] OTHER -> {}
 
 Insert(k) ==
   /\ Bounded
@@ -428,8 +456,8 @@ Delete(k) ==
 FullNext == (\E k \in Insertable : Insert(k)) \/ (\E k \in 1..N : Delete(k))
 
 RampNext ==
-  \/ \E k \in Cands(EligIns) : Insert(k)
-  \/ \E k \in Cands(EligDel) : Delete(k)
+  \/ \E k \in InsCands : Insert(k)
+  \/ \E k \in DelCands : Delete(k)
 
 Next == IF Ramp THEN RampNext ELSE FullNext
 
